@@ -140,11 +140,21 @@ theorem try_adds_no_guard_events : seq "Branch.try" = ["Match", "Exec", "target"
 
 /-! ## interpreters/ecmascript/ecmascript.go (C08, C10, C11) -/
 
-/-- C08/C11: `cancel()` directly follows `RunProgram`, and both run-time error exits return a nil
-    execution (so the emission buffer is dropped); an interrupt is reported as `Interrupted`. -/
+set_option maxRecDepth 8000 in
+/-- C08/C11: the value is exported and `cancel()` called right after `RunProgram`, and both run-time
+    error exits return a nil execution (so the emission buffer is dropped); an interrupt is reported
+    as `Interrupted`. -/
 theorem es_error_exits_nil_exe :
     stmt "Interpreter.Exec.afterRun" =
-      ["cancel() ;; if err != nil { if _, is := err.(*goja.InterruptedError); is { return nil, Interrupted } return nil, err }"] := by
+      ["var x interface{} ;; if err == nil { x, err = export(v) } ;; cancel() ;; if err != nil { if _, is := err.(*goja.InterruptedError); is { return nil, Interrupted } return nil, err }"] := by
+  decide
+
+set_option maxRecDepth 8000 in
+/-- C07/C11: the program's value is converted to Go data under a `recover` (a getter of the returned
+    object is script code: it can throw or be interrupted), before the watcher is released. -/
+theorem es_export_recovers :
+    stmt "ecmascript.export" =
+      ["{ defer func() { if r := recover(); r != nil { if e, is := r.(error); is { err = e } else { err = fmt.Errorf(\"%s\", r) } } }() return v.Export(), nil }"] := by
   decide
 
 /-- C08: every return of `Exec` that follows the start of the run and carries an error hands back a
